@@ -26,6 +26,7 @@ _CACHE = {}
 
 
 def _scratch(repo, tag):
+    # fixed path per driver: cargo's fingerprints are path-dependent, a stable path keeps the rebuild incremental
     d = os.path.join(WORKROOT, 'native-' + tag)
     if os.path.exists(d):
         shutil.rmtree(d)
